@@ -61,6 +61,10 @@ pub fn splitters_for(reference: &Contigs, cfg: &Cfg) -> AHashSet<u64> {
     determine_splitters(&cs, cfg.k, cfg.segment_size).0
 }
 
+#[cfg(ragc_verif_sched)]
+fn wait_queue_empty(_c: &StreamingQueueCompressor) {}
+
+#[cfg(not(ragc_verif_sched))]
 fn wait_queue_empty(c: &StreamingQueueCompressor) {
     // drain()/sync_and_flush() poll with 100 ms / 10 ms sleeps; waiting here first (same condition) makes
     // drain() return at once without changing what it waits for.
